@@ -182,6 +182,16 @@ class C11(BlockBase):
                     c.meta["_k"] = k
                     c.meta["_crlf"] = True
                     yield c
+        # very long wrapper lines and inner lines (no scan may be bounded by a buffer size)
+        for w in (255, 256, 1022, 1023, 1024, 1500, 4096, 5000):
+            for which in ("open", "close", "inner"):
+                body = ["{ " + "o" * (w if which == "open" else 3), "  in1" + "i" * (w if which == "inner" else 0), "  in2", "} " + "c" * (w if which == "close" else 3)]
+                lines = ["pre", "  " + gen.U_OPEN] + ["  " + b for b in body] + ["  " + gen.U_CLOSE, "post"]
+                src = "\n".join(lines) + "\n"
+                c = Case("long-lines", [req("clean", src)], {"replay": True, "src": src, "ds": "<", "de": ">", "cfg": proto.DEFAULT_CFG.to_json()}, key=src)
+                c.meta["_expect_stripped"] = ["pre"] + [b.strip(" \t") for b in body[1:-1]] + ["post"]
+                c.meta["_k"] = 4
+                yield c
         one = "a " + gen.U_OPEN + " b " + gen.U_CLOSE + " c\n"
         c = Case("one-line", [req("clean", one)], {"replay": True, "src": one, "ds": "<", "de": ">", "cfg": proto.DEFAULT_CFG.to_json()}, key=one)
         c.meta["_expect_stripped"] = [one.strip("\n")]
@@ -269,6 +279,18 @@ class C12(BlockBase):
             outer.children = [ln() for _ in range(rng.randint(0, 2))] + [inner] + [ln() for _ in range(rng.randint(0, 2))]
             items = [gen.Line("head#0"), outer, gen.Line("tail#0")]
             yield self.mk_items(items, gen.Spelling(), rng.random() < 0.8, "nested-ragged")
+        # very wide indentation (no scan of a line's indentation may be bounded by a buffer size)
+        for w in (63, 64, 65, 100, 255, 256, 257, 300, 1100):
+            for tag_ind in (0, 2, w - 1, w, w + 3):
+                for first in (2, w, w + 4):
+                    cnt = [0]
+                    def ln(k):
+                        cnt[0] += 1
+                        return gen.Line(" " * k + "w#%d" % cnt[0])
+                    e = gen.El("rm", True, unwrap=True, indent=" " * tag_ind)
+                    e.wrap_open, e.wrap_close = "{", "}"
+                    e.children = [ln(first), ln(w), ln(w + 7), ln(3), ln(first + 1)]
+                    yield self.mk_items([gen.Line("head#0"), e, gen.Line("tail#0")], gen.Spelling(), True, "wide-indent")
         # white space outside ASCII (ideographic space, no-break space, em space, vertical tab, form feed) right behind the
         # indentation of inner lines - the first inner line in particular: it is text, not indentation
         for i in range(quick(tier, 1200, 30000)):
@@ -352,6 +374,23 @@ class C13(BlockBase):
                             c.meta["_layout"] = gen.layout(items, gen.Spelling())
                             yield c
 
+        # very wide whitespace-only lines next to the block, very wide indentation of the tags
+        for w in (255, 256, 257, 300, 1100):
+            for b in range(0, 3):
+                for a in range(0, 3):
+                    for ind in ("", " " * w):
+                        ws = " " * w
+                        lines = ["before#1"] + [ws] * b + [ind + "<rm name='a'>", ind + "  gone", ind + "</rm>"] + [ws] * a + ["after#2"]
+                        src = "\n".join(lines) + "\n"
+                        c = Case("wide-blank-lines", [req("clean", src)], {"replay": True, "src": src, "ds": "<", "de": ">", "cfg": proto.DEFAULT_CFG.to_json()}, key=src)
+                        items = [gen.Line(l) for l in lines[:1 + b]]
+                        e = gen.El("rm", True, indent=ind)
+                        e.children = [gen.Line(ind + "  gone")]
+                        items.append(e)
+                        items += [gen.Line(l) for l in lines[4 + b:]]
+                        c.meta["_layout"] = gen.layout(items, gen.Spelling())
+                        yield c
+
     def oracle(self, case, impl, spec):
         k, v = parse_reply(impl[0])
         if k != "ok":
@@ -432,6 +471,12 @@ class C14(C02):
         for i in range(n):
             items = gen.g_ast(rng, depth=rng.choice([1, 2, 3]), p_inline=0.4, unique=True)
             yield self.mk(gen.render(items, final_nl=rng.random() < 0.7), "<", ">", proto.DEFAULT_CFG, "inline")
+        # one removal of more than 64 KiB (and of 255 / 256 / 65535 bytes) in front of other removals: the positions of the
+        # later seams are shifted by the whole length (no offset may be kept in a small integer)
+        for nbytes in quick(tier, (256, 66000), (255, 256, 257, 65535, 65536, 66000, 140000)):
+            body = "x\n" * (nbytes // 2)
+            d = ("K0\n<rm name='a'>\n" + body + "</rm>\nT1\n\nT2\n  <rm name='a'>y</rm>\nT3\n\n<rm name='a' unwrap-block>\n{\n    T4\n}\n</rm>\nT5\n")
+            yield self.mk(d, "<", ">", proto.DEFAULT_CFG, "big-removal")
 
 
 # ============================================================================================ C15 / C16 / C17
@@ -554,6 +599,34 @@ class ListBase(Base):
                 src = "x" + src
             yield self.mk(src, "<", ">", Cfg(), "multi-inline")
 
+    def big_docs(self, rng, tier="quick"):
+        """sizes beyond every small constant a list function might use: regions of more than a thousand lines, hundreds of
+        lines in front of a region (also regions that begin / end on a line-break byte), line numbers of five digits,
+        dozens of items, a very long line in front of a region"""
+        sp = gen.Spelling()
+        for body in quick(tier, (1024, 1025, 1026, 1100), (1023, 1024, 1025, 1026, 1100, 2100, 5000)):
+            for head in quick(tier, (3,), (1, 3)):
+                src = "".join("h%d\n" % i for i in range(head)) + "<rm name='a'>\n" + "".join("b%d\n" % i for i in range(body)) + "</rm>\nz\n"
+                yield self.mk(src, "<", ">", Cfg(), "big-region")
+        for head in quick(tier, (255, 256, 257, 300), (255, 256, 257, 300, 1030, 10010)):
+            for shape in range(4):
+                pre = "".join("l%d\n" % i for i in range(head))
+                if shape == 0:
+                    src = pre + "<rm name='a'>\nx\n</rm>\nz\n"
+                elif shape == 1:      # unwrap-block with empty wrapper lines: the regions begin / end on a line break
+                    src = pre + "<rm name='a' unwrap-block>\n\n  x\n\n</rm>\nz\n"
+                elif shape == 2:
+                    src = pre + "  a <rm name='a'>p\nq</rm> b\nz"
+                else:
+                    src = pre + "<tl to='%s' unwrap-block>\n{\n  <rm name='a'>y</rm>\n}\n</tl>\n" % gen.READY_T
+                yield self.mk(src, "<", ">", Cfg(), "many-lines")
+        for n_items in quick(tier, (9, 10, 11, 65, 100), (9, 10, 11, 64, 65, 70, 100, 130, 257, 1001)):
+            src = "".join("k%d\n<rm name='a'>\nx%d\n</rm>\n" % (i, i) for i in range(n_items)) + "end\n"
+            yield self.mk(src, "<", ">", Cfg(), "many-items")
+        for w in quick(tier, (1024, 4096), (1023, 1024, 4096, 9000, 70000)):
+            src = "q" * w + " <rm name='a'>x</rm> " + "r" * w + "\nz\n"
+            yield self.mk(src, "<", ">", Cfg(), "long-line")
+
     def empty_wrapper(self, rng, n):
         """unwrap-blocks whose wrapper lines are empty or blank: their regions begin or end on a line-break byte"""
         sp = gen.Spelling()
@@ -643,6 +716,7 @@ class C15(ListBase):
         yield from self.docs(rng, tier, quick(tier, 4000, 150000))
         yield from self.multi_inline(rng, quick(tier, 600, 20000))
         yield from self.empty_wrapper(rng, quick(tier, 400, 15000))
+        yield from self.big_docs(rng, tier)
         # the same documents with CRLF line ends
         for c in self.docs(rng, tier, quick(tier, 600, 20000)):
             m = c.meta
@@ -738,6 +812,7 @@ class C16(ListBase):
         yield from self.docs(rng, tier, quick(tier, 600, 20000), leading_nl=True)
         yield from self.multi_inline(rng, quick(tier, 500, 20000))
         yield from self.empty_wrapper(rng, quick(tier, 400, 15000))
+        yield from self.big_docs(rng, tier)
         # the same documents with CRLF line ends
         for c in self.docs(rng, tier, quick(tier, 600, 20000)):
             m = c.meta
@@ -833,6 +908,14 @@ class C17(ListBase):
                 for seps in itertools.product(["", " ", "x"], repeat=k - 1):
                     src = "a " + "".join(el_txt(*combo[i]) + (seps[i] if i < k - 1 else "") for i in range(k)) + " b\n"
                     yield self.mk(src, "<", ">", Cfg(), "touching")
+        # dozens of pending elements in front of, behind and inside a ready element (no merge loop may look a fixed number
+        # of entries ahead), and the big documents of the list checks
+        for n_p in quick(tier, (64, 65, 130), (63, 64, 65, 70, 130, 300, 1000)):
+            pend = "".join("<tl to='%s'>p%d</tl>\n" % (gen.PEND_T, i) for i in range(n_p))
+            yield self.mk("a\n" + pend + "<rm name='a'>\nx\n</rm>\nz\n", "<", ">", Cfg(), "many-pending")
+            yield self.mk("a\n<rm name='a'>\n" + pend + "</rm>\n" + pend + "z\n", "<", ">", Cfg(), "many-pending")
+            yield self.mk("a\n<tl to='%s' unwrap-block>\n{\n" % gen.READY_T + pend + "}\n</tl>\n" + pend + "z\n", "<", ">", Cfg(), "many-pending")
+        yield from self.big_docs(rng, tier)
         # outside the property's space (tags on the wrapper lines of unwrap-blocks): implementation against model only
         for i in range(quick(tier, 1500, 40000)):
             g = gen.DocGen(rng, depth=rng.choice([2, 3]), p_unwrap=0.6, p_ready=0.55, p_skip=0.05, p_wrapper_tags=0.6, p_inline=0.2,
@@ -1260,12 +1343,12 @@ class C20(Base):
 
     def mk_case(self, m, label):
         file_targets = self.ref_lines(self.file_text(m)) if m["file"] is not None else []
-        cfg = Cfg(tl=m["tl"], rm=m["rm"], now=m["now"], off=m["off"], targets=tuple(sorted(set(m["flags"]) | set(file_targets))))
+        cfg = Cfg(tl=m["tl"], rm=m["rm"], now=m["now"], off=m["off"], targets=tuple(sorted(set(m["flags"]) | set(file_targets))), nanos=m.get("nanos", 0))
         op = {"clean": "clean", "list": "list:", "list_all": "list_all:"}[m["mode"]]
         if op != "clean":
             op += "json" if m["json"] else "pretty"
         # the model of main(): flags only as --removal-marker-target-name, the config file as a file
-        mcfg = Cfg(tl=m["tl"], rm=m["rm"], now=m["now"], off=m["off"], targets=tuple(m["flags"]))
+        mcfg = Cfg(tl=m["tl"], rm=m["rm"], now=m["now"], off=m["off"], targets=tuple(m["flags"]), nanos=m.get("nanos", 0))
         filehex = "-" if m["file"] is None else (hx(self.file_text(m)) or "")
         cli_req = req("cli", m["src"], m["ds"], m["de"], mcfg,
                       extra=[filehex if filehex != "" else "", "1" if m["mode"] == "list" else "0",
@@ -1328,6 +1411,27 @@ class C20(Base):
                      "off": self.DEF["off"], "now": gen.NOW, "flags": [], "file": None, "file_style": "lf",
                      "mode": mode, "list_flag_both": False, "json": js}
                 yield self.mk_case(m, "cli-empty-document")
+        # the current time in every spelling the option accepts, with and without a fraction of a second: the same instant,
+        # the same result (a spelling that is not understood would silently fall back to the clock)
+        bodyt = ("keep();\n" + self.DEF["ds"] + "time-limited to='2021-06-01 00:00:00'" + self.DEF["de"] + "\nsoon();\n" + self.DEF["ds"] + "/time-limited" + self.DEF["de"] + "\n"
+                 + self.DEF["ds"] + "time-limited to='2021-01-01 00:00:01'" + self.DEF["de"] + "\nedge();\n" + self.DEF["ds"] + "/time-limited" + self.DEF["de"] + "\n"
+                 + self.DEF["ds"] + "time-limited to='2020-12-31 00:00:00'" + self.DEF["de"] + "\nold();\n" + self.DEF["ds"] + "/time-limited" + self.DEF["de"] + "\nend();\n")
+        for spell in [None, "z", "nocolon", "space-offset", "utc-word", "lower", "space-sep"]:
+            for nanos in (0, 500000000, 999999999, 1):
+                for mode, js in [("clean", False), ("list_all", True)]:
+                    m = {"src": bodyt, "ds": self.DEF["ds"], "de": self.DEF["de"], "tl": self.DEF["tl"], "rm": self.DEF["rm"],
+                         "off": self.DEF["off"], "now": 1609459200, "nanos": nanos, "now_spelling": spell, "flags": [], "file": None,
+                         "file_style": "lf", "mode": mode, "list_flag_both": False, "json": js}
+                    yield self.mk_case(m, "cli-current-spelling")
+        # delimiters and tag names with characters that a shell, clap or an escape-processing step might treat specially
+        for ds, de in [("\\todo{<", ">}"), ("\\n<", ">\\t"), ("%{", "}%"), ("$(", ")"), ("--<", ">--"), ("\\\\<", ">")]:
+            for tl, rm in [(self.DEF["tl"], self.DEF["rm"]), ("\\tl", "r\\n")]:
+                d = ("keep();\n" + ds + tl + " to='2000-01-01 00:00:00'" + de + "\nold();\n" + ds + "/" + tl + de + "\n"
+                     + ds + rm + " name='a'" + de + "\ngone();\n" + ds + "/" + rm + de + "\nend();\n")
+                for mode, js in [("clean", False), ("list", True)]:
+                    m = {"src": d, "ds": ds, "de": de, "tl": tl, "rm": rm, "off": self.DEF["off"], "now": gen.NOW, "flags": ["a"], "file": None,
+                         "file_style": "lf", "mode": mode, "list_flag_both": False, "json": js}
+                    yield self.mk_case(m, "cli-odd-delimiters")
         # a name given both in the config file and by flag (once or twice): the target set is the union
         sp2 = gen.Spelling(self.DEF["ds"], self.DEF["de"], self.DEF["tl"], self.DEF["rm"])
         lines2 = []
@@ -1381,7 +1485,23 @@ class C20(Base):
             # the same instant, spelled in different zones
             if tz == "Asia/Tokyo":
                 t = t.astimezone(datetime.timezone(datetime.timedelta(hours=9)))
-            args += ["--time-limited-current", t.isoformat()]
+            ts = t.isoformat()
+            if m.get("nanos"):
+                ts = ts[:19] + (".%09d" % m["nanos"]).rstrip("0") + ts[19:]
+            sp_ = m.get("now_spelling")
+            if sp_ == "z" and ts.endswith("+00:00"):
+                ts = ts[:-6] + "Z"
+            elif sp_ == "nocolon":
+                ts = ts[:-3] + ts[-2:]
+            elif sp_ == "space-offset":
+                ts = ts[:-6] + " " + ts[-6:]
+            elif sp_ == "utc-word" and ts.endswith("+00:00"):
+                ts = ts[:-6] + " UTC"
+            elif sp_ == "lower":
+                ts = ts.replace("T", "t").replace("+00:00", "z")
+            elif sp_ == "space-sep":
+                ts = ts.replace("T", " ")
+            args += ["--time-limited-current", ts]
             D = self.DEF
             if m["ds"] != D["ds"]:
                 args += ["--delimiter-start=" + m["ds"]]
